@@ -19,7 +19,7 @@ def main():
         for h in sorted(hs, key=lambda h: (h.crate, h.name)):
             if h.expect == "fail":
                 continue
-            eng = {"proto": "E1", "wt": "E1", "mproto": "E2", "mdrv": "E2", "mx509": "E2", "e3": "E3"}.get(h.crate, h.crate)
+            eng = {"proto": "E1", "wt": "E1", "mproto": "E2", "mdrv": "E2", "mx509": "E2", "mquic": "E2", "e3": "E3"}.get(h.crate, h.crate)
             primary = "" if h.props[0] == pid else f" (primary {h.props[0]})"
             print(f"| `{h.name}`{primary} | {eng}/{h.crate} | {h.tier} | {h.fns[:160]} | {h.bound[:260]} | {h.oracle[:300]} |")
         twins = [h.name for h in hs if h.expect == "fail"]
